@@ -10,6 +10,11 @@ namespace SqiProofs.C17
 open SqiModel.Intbig SqiModel.CProg SqiModel.NumberTheory
 
 /-! ### small routines -/
+theorem gen_ibz_div (q r a b : Int) : SqiGen.Intbig.ibz_div q r a b = ibzDiv a b := rfl
+theorem gen_ibz_div_2exp (q a : Int) (e : Nat) : SqiGen.Intbig.ibz_div_2exp q a e = ibzDiv2exp a e := by
+  show a.tdiv (2 ^ ((e : Int)).toNat) = a.tdiv (2 ^ e)
+  rw [Int.toNat_natCast]
+theorem gen_ibz_xgcd (g u v a b : Int) : SqiGen.Intbig.ibz_xgcd g u v a b = ibzXgcd a b := rfl
 theorem gen_ibz_mod (r a b : Int) : SqiGen.Intbig.ibz_mod r a b = ibzMod a b := rfl
 theorem gen_ibz_div_floor (q r n d : Int) : SqiGen.Intbig.ibz_div_floor q r n d = ibzDivFloor n d := rfl
 theorem gen_ibz_crt (crt a b ma mb : Int) : SqiGen.Intbig.ibz_crt crt a b ma mb = ibzCrt a b ma mb := by
@@ -385,11 +390,11 @@ theorem gen_ibz_cornacchia_prime (x y n p : Int) (hp : 0 < p) (hn : n ≠ 0) :
   · subst h2; by_cases h1 : n = 1 <;> simp [h1]
   · simp only [h2, if_false]
     rw [gen_ibz_sqrt_mod_p _ _ _ hp]
-    have hne : ibz_cmp p (ibz_set 2) ≠ 0 := by
+    have hne : prim_ibz_cmp p (prim_ibz_set 2) ≠ 0 := by
       show (p - 2).sign ≠ 0
       rw [ne_eq, sign_sub_eq_zero]; exact h2
     simp only [hne, ne_eq, not_false_eq_true, if_true, one_ne_zero]
-    have h00 : ibz_sub (ibz_set 0) n = 0 - n := rfl
+    have h00 : prim_ibz_sub (prim_ibz_set 0) n = 0 - n := rfl
     rw [h00]
     cases hs : ibzSqrtModP (0 - n) p with
     | ub => rfl
@@ -397,20 +402,20 @@ theorem gen_ibz_cornacchia_prime (x y n p : Int) (hp : 0 < p) (hn : n ≠ 0) :
     | ok v =>
       simp only
       let f : Int × Int × Int × Int × Int → Option (Int × Int × Int × Int × Int) := fun x =>
-        match ibz_div x.2.2.2.1 x.2.2.2.2 with
+        match prim_ibz_div x.2.2.2.1 x.2.2.2.2 with
         | none => none
-        | some (a, r0) => some (a, r0, ibz_mul r0 r0, ibz_copy x.2.2.2.2, ibz_copy r0)
+        | some (a, r0) => some (a, r0, prim_ibz_mul r0 r0, prim_ibz_copy x.2.2.2.2, prim_ibz_copy r0)
       have hstep : ∀ a r0 prod r2 r1 : Int, f (a, r0, prod, r2, r1)
           = if r1 = 0 then none else some (r2.tdiv r1, r2.tmod r1, r2.tmod r1 * r2.tmod r1, r1, r2.tmod r1) := by
         intro a r0 prod r2 r1
-        by_cases h0 : r1 = 0 <;> simp [f, h0, ibz_div]
+        by_cases h0 : r1 = 0 <;> simp [f, h0, prim_ibz_div]
       have hw := while_corn p f hstep (p.natAbs + 2) 0 0 p v p (le_refl _)
       cases hc : cornLoop p (p.natAbs + 2) v p with
       | fail => exact absurd hc (cornLoop_ne_fail _ _ _ _)
       | ub =>
         rw [hc] at hw
-        cases hwl : whileFuelO (fun x : Int × Int × Int × Int × Int => decide (ibz_cmp x.2.2.1 p ≥ 0)) f (p.natAbs + 2)
-            (0, 0, ibz_copy p, v, ibz_copy p) with
+        cases hwl : whileFuelO (fun x : Int × Int × Int × Int × Int => decide (prim_ibz_cmp x.2.2.1 p ≥ 0)) f (p.natAbs + 2)
+            (0, 0, prim_ibz_copy p, v, prim_ibz_copy p) with
         | none => rfl
         | some st =>
           exfalso
@@ -420,8 +425,8 @@ theorem gen_ibz_cornacchia_prime (x y n p : Int) (hp : 0 < p) (hn : n ≠ 0) :
       | ok rp =>
         obtain ⟨r0', prod'⟩ := rp
         rw [hc] at hw
-        cases hwl : whileFuelO (fun x : Int × Int × Int × Int × Int => decide (ibz_cmp x.2.2.1 p ≥ 0)) f (p.natAbs + 2)
-            (0, 0, ibz_copy p, v, ibz_copy p) with
+        cases hwl : whileFuelO (fun x : Int × Int × Int × Int × Int => decide (prim_ibz_cmp x.2.2.1 p ≥ 0)) f (p.natAbs + 2)
+            (0, 0, prim_ibz_copy p, v, prim_ibz_copy p) with
         | none =>
           exfalso
           have : (whileFuelO (fun st : Int × Int × Int × Int × Int => decide ((st.2.2.1 - p).sign ≥ 0)) f (p.natAbs + 2)
@@ -435,7 +440,7 @@ theorem gen_ibz_cornacchia_prime (x y n p : Int) (hp : 0 < p) (hn : n ≠ 0) :
           obtain ⟨a', r0'', prod'', r2', r1'⟩ := st
           simp only at hw
           obtain ⟨rfl, rfl⟩ := hw
-          simp only [ibz_div, hn, if_false, ibz_sub, ibz_is_zero, ibz_sqrt, ibz_copy, ibz_mul, ibz_add, ibz_cmp, cornFinish]
+          simp only [prim_ibz_div, hn, if_false, prim_ibz_sub, prim_ibz_is_zero, prim_ibz_sqrt, prim_ibz_copy, prim_ibz_mul, prim_ibz_add, prim_ibz_cmp, cornFinish]
           by_cases hr : (p - prod'').tmod n = 0
           · simp only [hr, if_true, one_ne_zero, ne_eq, not_false_eq_true, not_true_eq_false, if_false]
             cases hq : ibzSqrt ((p - prod'').tdiv n) with
